@@ -26,6 +26,10 @@ class StringTheory:
         self._and_cache = {}
         self._rx_cache = {}
         self.keysets = {}
+        self._fk_cache = {}
+        self._dec_cache = {}
+        self._keep = []          # keeps DFAs alive so that id()-keyed cache entries stay valid
+        self.safe_raws = {}      # function qualname -> (raw class of accepted characters, empty string accepted?)
         self.reset()
 
     # ------------------------------------------------------------------ path state
@@ -45,6 +49,27 @@ class StringTheory:
             return self.eqfacts.get(key.term)
         return None
 
+    def feasible_keys(self, key, keys):
+        """(list of keys the slice can equal on this path, can it be none of them?) or None."""
+        if not isinstance(key, SStr) or key.term[0] != "slice" or key.term[1][0] != "S":
+            return None
+        _, _, a, b = key.term
+        if b is None or a is None or a < 0 or b <= a:
+            return None
+        ck = (id(self.lang), key.term, tuple(keys))
+        r = self._fk_cache.get(ck)
+        if r is None:
+            self._keep.append(self.lang)
+            proj = self.lang.slice_from(a, b)
+            A = self.alpha
+            feas = []
+            for k in keys:
+                if len(k) == b - a and proj.accepts_word([A.atom_of_char(c) for c in k]):
+                    feas.append(k)
+            r = feas
+            self._fk_cache[ck] = r
+        return list(r)
+
     # ------------------------------------------------------------------ interface for the evaluator
     def decide(self, cond):
         neg = False
@@ -58,12 +83,18 @@ class StringTheory:
             if v is None:
                 return None
             return v != neg
-        both = self._and(self.lang, d, cond)
-        if both.is_empty():
-            res = False
-        elif both.key() == self.lang.key():
-            res = True
-        else:
+        ck = (id(self.lang), cond)
+        res = self._dec_cache.get(ck, 0)
+        if res == 0:
+            self._keep.append(self.lang)
+            if not self.lang.intersects(d):
+                res = False
+            elif self.lang.included_in(d):
+                res = True
+            else:
+                res = None
+            self._dec_cache[ck] = res
+        if res is None:
             return None
         return res != neg
 
@@ -94,19 +125,21 @@ class StringTheory:
                 self.eqfacts[b.term] = str(a)
 
     def _and(self, cur, d, cond):
-        k = (cur.key(), "and", cond)
+        k = (id(cur), "and", cond)
         r = self._and_cache.get(k)
         if r is None:
             r = cur.intersect(d)
             self._and_cache[k] = r
+            self._keep.append(cur)
         return r
 
     def _minus(self, cur, d, cond):
-        k = (cur.key(), "minus", cond)
+        k = (id(cur), "minus", cond)
         r = self._and_cache.get(k)
         if r is None:
             r = cur.minus(d)
             self._and_cache[k] = r
+            self._keep.append(cur)
         return r
 
     # ------------------------------------------------------------------ translation
@@ -157,6 +190,21 @@ class StringTheory:
         if k == "in":
             item, cont = c.args
             return self._membership(item, cont)
+        if k == "strsafe":
+            qual, s = c.args
+            if qual not in self.safe_raws or not isinstance(s, SStr):
+                raise Untranslatable()
+            raw, empty_ok = self.safe_raws[qual]
+            safe = DFA.chars_in(A, A.atoms_of(raw))
+            parts = s.term[1:] if s.term[0] == "concat" else (s.term,)
+            lang = DFA.any_string(A)
+            allempty = DFA.any_string(A)
+            for t in parts:
+                lang = lang.intersect(self.lift(t, safe))
+                allempty = allempty.intersect(self.lift(t, DFA.epsilon(A)))
+            if not empty_ok:
+                lang = lang.minus(allempty)
+            return lang
         if k == "cmp":
             op, a, b = c.args
             return self._cmp(op, a, b)
